@@ -141,6 +141,17 @@ func init() {
 								if slack == 0 {
 									out = append(out, cs("VH_C03_Step", n, slack, m, op, 1)) // with a push policy
 								}
+								if op == 0 && slack == 0 && m >= 2 {
+									// nested Stacks at some positions of the batch
+									for _, nest := range []int{1, 2, 5} {
+										if nest < 1<<uint(m) {
+											out = append(out, cs("VH_C03_Step", n, slack, m, op, 0, nest))
+											if nest == 1 {
+												out = append(out, cs("VH_C03_Step", n, slack, m, op, 1, nest))
+											}
+										}
+									}
+								}
 							}
 						default:
 							out = append(out, cs("VH_C03_Step", n, slack, 0, op))
@@ -230,7 +241,7 @@ func init() {
 			var out []symx.CaseSpec
 			for ns := 0; ns <= q(tier, 3, 4); ns++ {
 				for nd := 0; nd <= q(tier, 3, 4); nd++ {
-					for v := 0; v <= 6; v++ {
+					for v := 0; v <= 9; v++ {
 						if v >= 3 && nd > 1 {
 							continue
 						}
@@ -280,9 +291,9 @@ func init() {
 		id: "C09",
 		gen: func(tier string, seed int) []symx.CaseSpec {
 			var out []symx.CaseSpec
-			variants := []int{0, 3}
+			variants := []int{0, 3, 16}
 			if tier == "thorough" {
-				variants = []int{0, 1, 2, 3, 4, 7}
+				variants = []int{0, 1, 2, 3, 4, 7, 16, 18}
 			}
 			for i := range auto.Stack {
 				for _, v := range variants {
@@ -327,9 +338,9 @@ func init() {
 		id: "C11",
 		gen: func(tier string, seed int) []symx.CaseSpec {
 			var out []symx.CaseSpec
-			variants := []int{0, 3, 8}
+			variants := []int{0, 3, 8, 16}
 			if tier == "thorough" {
-				variants = []int{0, 1, 2, 3, 4, 7, 8, 10}
+				variants = []int{0, 1, 2, 3, 4, 7, 8, 10, 16, 18}
 			}
 			for i, n := range auto.Stack {
 				if isMut("Stack." + n) {
@@ -527,7 +538,7 @@ func init() {
 			out = append(out, cs("VH_C20", 3, 2, 0, 1, 1, 0, 3, 0, 1, 1, 0, 3, 0, 1, 1, 0, 0))
 			out = append(out, cs("VH_C20", 3, 2, 0, 1, 1, 0, 5, 0, 1, 1, 0, 2))
 			out = append(out, cs("VH_C20", 2, 2, 3, 1, 1, 0, 3, 0, 1, 0, 0, 0))
-			for k := 0; k <= 7; k++ {
+			for k := 0; k <= 10; k++ {
 				out = append(out, cs("VH_C20_Named", k))
 			}
 			n := q(tier, 120, 1500)
@@ -597,6 +608,22 @@ func init() {
 			}
 			// spare-capacity slices of different length against each other
 			out = append(out, cs("VH_C05_SliceLen"))
+			// pointer elements (nil or not), nested slices, interface-typed members
+			for form := 0; form <= 8; form++ {
+				for where := 0; where <= 2; where++ {
+					for nlx := 0; nlx <= 3; nlx++ {
+						for nly := 0; nly <= 3; nly++ {
+							if (form == 2 || form >= 7) && (nlx > 0 || nly > 0) {
+								continue // no nil-able members
+							}
+							out = append(out, cs("VH_C05_Extra", form, nlx, nly, where))
+						}
+					}
+				}
+			}
+			for k := 0; k <= 4; k++ {
+				out = append(out, cs("VH_C05_Hidden", k))
+			}
 			n := q(tier, 60, 600)
 			r := uint64(seed)*2654435761 + 5
 			for i := 0; i < n; i++ {
@@ -692,13 +719,16 @@ func init() {
 					}
 				}
 			}
+			// a second SetMutex among the operations; an accept-all push policy installed
+			out = append(out, cs("VH_C10", 1, 2, 1, 9, 0, 0), cs("VH_C10", 1, 2, 1, 2, 0, 0, 1), cs("VH_C10", 1, 2, 1, 2, 2, 1, 1))
 			if tier == "thorough" {
+				out = append(out, cs("VH_C10", 2, 2, 1, 4, 3, 0, 1))
 				out = append(out, cs("VH_C10", 1, 3, 1, 2, 0, 0), cs("VH_C10", 2, 3, 1, 2, 2, 1), cs("VH_C10", 1, 2, 2, 2, 0, 0), cs("VH_C10", 1, 2, 2, 2, 2, 1))
 			}
 			return out
 		},
 		boundsText: map[string]string{
-			"quick":    "2 goroutines x 1 operation each from {Push, Pop, Insert, Remove, Replace, Swap} on a mutex-enabled LIST of length 0..2, LIFO and FIFO, without capacity and with capacity n+1; every interleaving at lock-acquisition granularity (scheduler choices are decisions of the path search); index arguments symbolic in [-1, n+2]",
+			"quick":    "2 goroutines x 1 operation each from {Push, Pop, Insert, Remove, Replace, Swap} on a mutex-enabled LIST of length 0..2, LIFO and FIFO, without capacity and with capacity n+1; the same with {Push, Pop, SetMutex-again} and with an accept-all push policy installed ({Push, Pop}); every interleaving at lock-acquisition granularity (scheduler choices are decisions of the path search); index arguments symbolic in [-1, n+2]",
 			"thorough": "as quick with all 8 mutators and length 0..3; plus 3 goroutines x 1 operation from {Push, Pop} and 2 goroutines x 2 operations from {Push, Pop} on stacks of length 1-2",
 		},
 		outside: "free-running executions on 16 cores and weak-memory effects (the engine is sequentially consistent and pre-empts only at lock points; unsynchronised accesses between lock points are reported by the lockset log instead and confirmed natively under the Go race detector); index options; more goroutines or longer sequences",
